@@ -49,3 +49,31 @@ Example C05_witness :
 Proof. eexists. split; vm_compute; reflexivity. Qed.
 
 Print Assumptions C05.
+
+(* the last clause of the property, over histories: the number of bytes the decoder takes from the reader for a sequence of records
+   is the sum of Size() of the values it returned - for every read schedule *)
+Fixpoint sizes (s : schema) (tvs : list (ty * value)) : nat :=
+  match tvs with
+  | [] => 0
+  | (t, v) :: r => size s t v + sizes s r
+  end.
+Lemma encodings_length s : forall tvs all, encodings s tvs = Some all -> length all = sizes s tvs.
+Proof.
+  induction tvs as [|[t v] tvs IH]; cbn [encodings sizes]; intros all E.
+  - injection E as <-. reflexivity.
+  - destruct (enc s t v) as [a|] eqn:Ea; cbn [obind] in E; [|discriminate].
+    destruct (encodings s tvs) as [b|] eqn:Eb; cbn [obind] in E; [|discriminate]. injection E as <-.
+    rewrite app_length, (IH b eq_refl), (L1 s v t a Ea). reflexivity.
+Qed.
+Definition C05_size_statement : Prop :=
+  forall s, schema_wf s -> forall tvs all, encodings s tvs = Some all ->
+    exists f0, forall fuel, f0 <= fuel -> forall rest sch,
+      exists b', decode_seq s fuel (map fst tvs) {| data := all ++ rest; sched := sch |} = Some (map snd tvs, b') /\
+                 length (all ++ rest) - length (data b') = sizes s tvs.
+Theorem C05_size : C05_size_statement.
+Proof.
+  intros s Hwf tvs all E. destruct (C05 s Hwf tvs all E) as [f0 H]. exists f0. intros fuel Hf rest sch.
+  destruct (H fuel Hf rest sch) as (b' & Hd & Hr). exists b'. split; [exact Hd|].
+  rewrite Hr, app_length, (encodings_length s tvs all E). lia.
+Qed.
+Print Assumptions C05_size.
